@@ -9,17 +9,24 @@ package fbserver
 //@ ghostvar nextW int
 //@ ghostvar nextR int
 //@ ghostvar nextCtx int
+// ... and with which question and id the message was handed on (the message as it was at that moment)
+//@ ghostvar nextQName str
+//@ ghostvar nextQType int
+//@ ghostvar nextQClass int
+//@ ghostvar nextId int
 //@ ufun maxans(int) int
 
 //@ extern github.com/coredns/coredns/plugin NextOrFailure
-//@ updates nextCalls, nextW, nextR, nextCtx
+//@ updates nextCalls, nextW, nextR, nextCtx, nextQName, nextQType, nextQClass, nextId
 //@ ensures nextCalls == old(nextCalls) + 1 && nextW == w && nextR == r && nextCtx == ctx
+//@ ensures len(r.Question) >= 1 ==> nextQName == r.Question[0].Name && nextQType == r.Question[0].Qtype && nextQClass == r.Question[0].Qclass && nextId == r.Id
 
 // every handler of the chain is entered with a message that has a question (serveMux guarantees it)
 //@ extern github.com/coredns/coredns/plugin Handler.ServeDNS
-//@ updates nextCalls, nextW, nextR, nextCtx
+//@ updates nextCalls, nextW, nextR, nextCtx, nextQName, nextQType, nextQClass, nextId
 //@ requires len(arg2.Question) >= 1
 //@ ensures nextCalls == old(nextCalls) + 1 && nextW == arg1 && nextR == arg2 && nextCtx == arg0
+//@ ensures nextQName == arg2.Question[0].Name && nextQType == arg2.Question[0].Qtype && nextQClass == arg2.Question[0].Qclass && nextId == arg2.Id
 
 //@ extern github.com/facebookincubator/dns/dnsrocks/dnsserver WithMaxAnswer
 //@ pure
@@ -27,15 +34,19 @@ package fbserver
 
 // serveMux (C13/C20): a message without a question gets a failure reply and never enters the chain;
 // otherwise the chain is entered exactly once with the same writer and message.
+// The message is handed on AS RECEIVED: same id, same question -- name spelled as the client spelled it (the reply
+// echoes it), type and class.
 //@ func serveMux.ServeDNS
-//@ updates nextCalls, nextW, nextR, nextCtx, nwritten, lastWritten, writtenAt
+//@ updates nextCalls, nextW, nextR, nextCtx, nextQName, nextQType, nextQClass, nextId, nwritten, lastWritten, writtenAt
+//@ ensures[as-received] old(len(req.Question)) >= 1 ==> nextQName == old(req.Question[0].Name) && nextQType == old(req.Question[0].Qtype) && nextQClass == old(req.Question[0].Qclass) && nextId == old(req.Id)
 //@ requires mux.defaultHandler != nil && req != nil
 //@ ensures[noquestion] len(req.Question) < 1 ==> nextCalls == old(nextCalls)
 //@ ensures[once] len(req.Question) >= 1 ==> nextCalls == old(nextCalls) + 1 && nextW == w && nextR == req && nwritten == old(nwritten)
 
 // maxAnswerHandler (C11/C20): passes the same writer and message on, once, with the configured maximum
 //@ func maxAnswerHandler.ServeDNS
-//@ updates nextCalls, nextW, nextR, nextCtx
+//@ updates nextCalls, nextW, nextR, nextCtx, nextQName, nextQType, nextQClass, nextId
+//@ ensures[as-received] old(len(r.Question)) >= 1 ==> nextQName == old(r.Question[0].Name) && nextQType == old(r.Question[0].Qtype) && nextQClass == old(r.Question[0].Qclass) && nextId == old(r.Id)
 //@ ensures nextCalls == old(nextCalls) + 1 && nextW == w && nextR == r && uf.maxans(nextCtx) == mh.maxAnswer
 
 //@ func newMaxAnswerHandler
@@ -45,7 +56,8 @@ package fbserver
 // anyHandler (C20): every query of type ANY (whatever its class) is answered here with the single
 // synthesized HINFO "RFC 8482" "" record and never reaches the database; everything else passes through.
 //@ func anyHandler.ServeDNS
-//@ updates nextCalls, nextW, nextR, nextCtx, nwritten, lastWritten, writtenAt
+//@ updates nextCalls, nextW, nextR, nextCtx, nextQName, nextQType, nextQClass, nextId, nwritten, lastWritten, writtenAt
+//@ ensures[as-received] r.Question[0].Qtype != dns.TypeANY ==> nextQName == old(r.Question[0].Name) && nextQType == old(r.Question[0].Qtype) && nextQClass == old(r.Question[0].Qclass) && nextId == old(r.Id)
 //@ ghostret mm int = m
 //@ flag skip frame
 //@ requires r != nil && len(r.Question) >= 1 && w != nil
